@@ -1135,6 +1135,7 @@ def extra_stream(name, tier, seed, ops=None):
                 for t in ids:
                     lines.append("eqstr %s %s" % (hx(t), hx(t)))
                     lines.append("eqstr %s %s" % (hx(t.upper()), hx(t)))
+                    lines.append("eqstr %s %s" % (hx(t), R.hexs(t.encode() + b"\x00")))
                     if len(t) > 3:
                         lines.append("eqstr %s %s" % (hx(t), hx(t[:-1])))
                         lines.append("eqstr %s %s" % (hx(t), hx(t[:64])))
@@ -1204,6 +1205,11 @@ def extra_stream(name, tier, seed, ops=None):
                         lines.append("hist %s hv:%s" % (hb(inits["v"]), hb(vs[i])))
                     lines.append("hist %s sa:%s ra:%s sa:%s sa:%s" % (hb(inits["a"]), hb("zzznew"), hb("zzznew"), hb("aaanew"), hb("aaanew")))
                     lines.append("hist %s at:%s rt:%s at:%s at:%s" % (hb(inits["t"]), hb("zzz"), hb("zzz"), hb("aaa"), hb("aaa")))
+                    if k >= 2:
+                        # the list replaced by one of the SAME length that repeats an element: adjacent, non-adjacent, in another order
+                        for rep in (vs[:-1] + [vs[0]], [vs[-1]] + vs[:-1][::-1], vs[:-2] + [vs[-1], vs[-1]], [vs[k // 2]] + vs[1:]):
+                            lines.append("hist %s sv:%s hv:%s" % (hb(inits["v"]), ",".join(hb(x) for x in rep), hb(vs[0])))
+                            lines.append("hist %s sv:%s sv:%s" % (hb("en-US"), ",".join(hb(x) for x in vs), ",".join(hb(x) for x in rep)))
                     if vs:
                         lines.append("hist %s sv:%s sv:%s sv:%s cv" % (hb("en-US"), ",".join(hb(x) for x in vs), ",".join(hb(x) for x in reversed(vs + vs)), ",".join(hb(x) for x in [vs[0]] * k)))
                         lines.append("hist %s sv:%s" % (hb(inits["v"]), ",".join(hb(x) for x in [vs[-1]] * k)))
@@ -1407,7 +1413,9 @@ def extra_stream(name, tier, seed, ops=None):
                     w.decode("utf-8")
                 except Exception:
                     continue
-                others = {w, w.lower(), w.upper(), w.title(), w[:-1], w + b"a", w + b"-", b"-" + w, b"", b"und", b"UND", b"Und"}
+                others = {w, w.lower(), w.upper(), w.title(), w[:-1], w + b"a", w + b"-", b"-" + w, b"", b"und", b"UND", b"Und",
+                          # the text padded with NUL bytes (to 4 / 8 bytes and beyond), before and after
+                          w + b"\x00", w + b"\x00" * max(1, 4 - len(w)), w + b"\x00" * max(1, 8 - len(w)), b"\x00" + w, w + b"\x00" * 9}
                 for o in sorted(others):
                     lines.append("subeq %s %s %s" % (kind, R.hexs(w), R.hexs(o)))
         return lines
